@@ -5,6 +5,9 @@
 mod c02;
 mod c03;
 mod c04;
+mod c05;
+mod c06;
+mod c09;
 mod gen;
 mod hp;
 
@@ -27,6 +30,9 @@ fn run(args: &Args, mon: &mut vcommon::mon::Monitor) {
         "C02" => c02::run(mon),
         "C03" => c03::run(mon),
         "C04" => c04::run(mon),
+        "C05" => c05::run(mon),
+        "C06" => c06::run(mon),
+        "C09" => c09::run(mon),
         p => {
             eprintln!("e_geom: unknown property {}", p);
             std::process::exit(2);
